@@ -132,6 +132,14 @@ def gen_case(rng, tier):
             "legacy_at": 0 if c > 8 else rng.choice([None, 0]),
             # parameter arrays handed to the setters in another floating dtype
             "pdtype": rng.choice(["float64"] * 9 + ["float32", "float16"]),
+            # how the state to be saved was reached: after (pre-)training, the switches may be
+            # changed and parameters / floors assigned by hand, in any order
+            "post": [rng.choice([{"op": "flip", "um": rng.random() < 0.5, "uv": rng.random() < 0.5,
+                                  "uw": rng.random() < 0.5},
+                                 {"op": "scale", "attr": rng.choice(["variances", "means", "weights"]),
+                                  "k": rng.choice([0.5, 1.3, 2.0])},
+                                 {"op": "floor_bump", "up": rng.choice([2.0, 10.0, 50.0])}])
+                     for _ in range(rng.choice([0, 0, 1, 2, 3]))],
         }
     src = rng.choice(["acc", "acc", "zero", "values"])
     return {
@@ -329,6 +337,16 @@ def _run_machine(case, rec, store):
         live.fit(X)
         live.max_fitting_steps = case["max_steps"]
         rec.probe("pretrained")
+    for po in case.get("post", []):
+        if po["op"] == "flip":
+            live.update_means, live.update_variances, live.update_weights = po["um"], po["uv"], po["uw"]
+        elif po["op"] == "scale":
+            setattr(live, po["attr"], np.array(getattr(live, po["attr"])) * po["k"])
+        else:  # raise the floors, then lower them again: the variances keep the raised values
+            old = copy.deepcopy(live.variance_thresholds)
+            live.variance_thresholds = float(np.mean(np.asarray(live.variances))) * po["up"]
+            live.variance_thresholds = old
+        rec.probe("state_reached_by_hand_after_training")
     rec.probe("map_machine", case["kind"] == "map")
     rec.probe("non_float64_parameters", case.get("pdtype", "float64") != "float64")
     rec.probe("machine_with_10_or_more_components", case["c"] >= 10)
